@@ -267,6 +267,80 @@ sys.exit(0)
 """
 
 
+def dimension_derive_worker(task: Tuple) -> Dict[str, Any]:
+    """Dimension.derive against a symbolic-membership model of Dimension._by_name."""
+    families.boot()
+    import measured
+    from measured import Dimension
+
+    acc = work.Acc()
+    _, name, symbol = task
+    subject: List[Any] = [None]
+    reg: Dict[str, Registry] = {}
+
+    def fn() -> Any:
+        d = im.shadow_dimension([0, 3, -7] + [0] * (im.ndim() - 3))
+        subject[0] = d
+        saved = Dimension.__dict__["_by_name"]
+        reg["n"] = Registry("Dimension._by_name", subject)
+        Dimension._by_name = reg["n"]
+        before = (d.name, d.symbol)
+        raised = None
+        reg["n"]._state(name)      # fork on the pre-state even if the code never looks
+        try:
+            try:
+                Dimension.derive(d, name, symbol)
+            except symnum.HarnessError:
+                raise
+            except Exception as e:
+                raised = e
+            return {"raised": raised, "writes": list(reg["n"].writes), "state": dict(reg["n"].state),
+                    "before": before, "after": (d.name, d.symbol), "d": d}
+        finally:
+            Dimension._by_name = saved
+
+    with symnum.Shims():
+        ex = explore(fn, max_paths=16)
+    acc.explored(ex)
+    cfg = f"Dimension.derive(name={name!r}, symbol={symbol!r})"
+    for i, p in enumerate(ex.paths):
+        if p.exc is not None:
+            raise symnum.HarnessError(f"{cfg}: {p.exc!r}")
+        r = p.result
+        st = r["state"].get(name, "absent")
+        if r["raised"] is not None:
+            ok = not r["writes"] and r["before"] == r["after"]
+            what = f"{cfg} raised but changed the registry / the dimension's name (pre-state {r['state']})"
+            sig = "C19:atomicity:Dimension.derive"
+        else:
+            overwrote = st == "other" and any(k == name for k, _ in r["writes"])
+            bound = any(k == name and v is r["d"] for k, v in r["writes"]) or st == "self"
+            ok = bound and not overwrote and r["after"][0] == name
+            what = (f"{cfg} returned with the name "
+                    f"{'taken away from another dimension' if overwrote else 'not bound / not reported'} "
+                    f"(pre-state {r['state']})")
+            sig = "C19:binding:Dimension.derive:" + ("rebinds-a-name-of-another-dimension" if overwrote else "unbound")
+        acc.ob("unsat" if ok else "sat", f"{cfg}#p{i}", (cfg, i))
+        if not ok:
+            acc.out["viol"].append((sig, what, families.REPLAY_IMPORTS + f"""
+from measured import Dimension, Length, Time
+first = Dimension.derive(Length**3 / Time**7, 'c19-dim-name')
+other = Length**5 * Time**3
+try:
+    Dimension.derive(other, 'c19-dim-name')
+    raised = False
+except ValueError:
+    raised = True
+print('second derive raised:', raised, ' lookup returns the first:', Dimension.named('c19-dim-name') is first,
+      ' first still reports it:', first.name)
+if not raised and Dimension.named('c19-dim-name') is not first and first.name == 'c19-dim-name':
+    print('REPRODUCED: one name, two dimensions: the lookup returns one, the other still reports it'); sys.exit(1)
+sys.exit(0)
+"""))
+    acc.sample({"config": cfg, "registry_pre_states_explored": len(ex.paths)})
+    return acc.finish()
+
+
 # ------------------------------------------------------------------------------------
 # (2) life-cycle automaton per class, transitions computed from the real constructors
 
@@ -586,11 +660,14 @@ sys.exit(0)
 
 
 def worker(task: Tuple) -> Dict[str, Any]:
+    if task[0] == "dimension-derive":
+        return dimension_derive_worker(task)
     return atomicity_worker(task)
 
 
 def tasks_for(tier: str) -> List[Tuple]:
-    return [("atomic", label, tmpl, n, s) for (label, tmpl) in CASES for (n, s) in ARGS]
+    return [("atomic", label, tmpl, n, s) for (label, tmpl) in CASES for (n, s) in ARGS] + \
+        [("dimension-derive", "dname", "DS"), ("dimension-derive", "dname", None)]
 
 
 def main(tier: str, selftest_cases: int = 0) -> int:
